@@ -72,9 +72,11 @@ Definition dec_ccfg (v : val) : ccfg :=
   end.
 Definition dec_acfg (v : val) : acfg :=
   match v with
+  | VL [ti; st; au; pi; lm; rj; n; he] =>
+      mk_acfg (get_bool ti) (get_bool st) (get_bool au) (get_bool pi) (get_bool lm) (get_bool rj) (nat_of n) (get_bool he)
   | VL [ti; st; au; pi; lm; rj; n] =>
-      mk_acfg (get_bool ti) (get_bool st) (get_bool au) (get_bool pi) (get_bool lm) (get_bool rj) (nat_of n)
-  | _ => mk_acfg false false false false false false 0
+      mk_acfg (get_bool ti) (get_bool st) (get_bool au) (get_bool pi) (get_bool lm) (get_bool rj) (nat_of n) false
+  | _ => mk_acfg false false false false false false 0 false
   end.
 Definition enc_stage (s : cstage) : val := VL [enc_scope (cs_scope s); vnat (cs_waits s)].
 Definition dec_stage (v : val) : cstage :=
